@@ -483,6 +483,11 @@ func (w *streamingResponseWriter) WriteHeader(status int) {
 	if w.wroteHeader {
 		return
 	}
+	if status >= 100 && status <= 199 {
+		// Interim (1xx) responses cannot be forwarded through the proxy and must not be
+		// mistaken for the final response: ignore them and wait for the final status.
+		return
+	}
 	w.wroteHeader = true
 
 	// Initialize the response trailers.
